@@ -98,6 +98,10 @@ def cases(tier, seed):
                 cs.append({'gen': 'solve', 'routine': 'amen_solve', 'cls': cls, 'N': N, 'RB': gens.rank_profile(rng, d, 'rand', 2 if cls == 'spd' else 3), 'Rb': gens.rank_profile(rng, d, 'rand', 3),
                            'rhs': ['random', 'image'][i % 2], 'cfac': 10 ** rng.uniform(-0.3, 1.5), 'shift': [0.0, 0.1][(i // 3) % 2], 'eps': 10 ** rng.uniform(-9, -3), 'prec': prec,
                            'max_full': [0, 500][j % 2] if prec is not None else [500, 0][(i + j) % 2], 'x0': ['none', 'user'][(i // 3 + j + pi) % 2], 'vseed': rng.randrange(2 ** 40), 'sidx': j})
+    for N in ([12, 12, 12], [8, 12, 12]):
+        for prec in (None, 'c'):
+            cs.append({'gen': 'solve', 'routine': 'amen_solve', 'cls': 'lap', 'N': N, 'RB': [1] * 4, 'Rb': [1, 2, 2, 1], 'rhs': 'random', 'cfac': 1.0, 'shift': 0.0, 'eps': 1e-10, 'prec': prec,
+                       'max_full': 0, 'x0': 'none', 'vseed': 999, 'sidx': 0})
     for i in range(140 if not T else 1000):
         d = rng.choice([1, 2, 2, 3, 3, 4, 5, 6])
         while True:
@@ -108,7 +112,7 @@ def cases(tier, seed):
         for j in range(k):
             cs.append({'gen': 'matvec', 'routine': 'fast_matvec', 'M': M, 'N': N, 'RA': gens.rank_profile(rng, d, 'rand', 4), 'RB': gens.rank_profile(rng, d, 'rand', 4), 'RG': gens.rank_profile(rng, d, 'rand', 4),
                        'eps': 10 ** rng.uniform(-11, -2), 'guess': ['none', 'user'][(i + j) % 2], 'vals': ['gauss', 'decay'][i % 2], 'vseed': rng.randrange(2 ** 40), 'sidx': j,
-                       'dtype': 'c128' if i % 3 == 2 else 'f64'})
+                       'dtype': 'c128' if i % 3 == 2 else 'f64', 'scale': [1.0, 1.0, 1e-8, 1e4, 1e-15][(i // 2) % 5]})
     return cs
 
 
@@ -254,6 +258,7 @@ def run_matvec(case, ctx, cnt):
         err = dn.fro(dy - ref)
         allow = C_EPS * eps * nref + 1e3 * 2.3e-16 * srep
         ctx.count('dtype:' + case['dtype'])
+        ctx.count('magnitude:%g' % case.get('scale', 1.0))
         if nref > 0:
             ctx.metric('err_over_eps_norm/' + backend, err / (eps * nref) if eps >= 1e-9 else 0.0)
         if not err <= allow:
